@@ -139,7 +139,8 @@ def run (P : Params) (s : Digest) : List Op → Digest × List Out
 `ctor` ∈ new | reg | le | fn; modulus and block size of `<curve>` come from Gen/Fields.lean (extracted from /repo),
 exponent and number of rounds from `instances` (transcribed from the 8 mimc.go); the round constants travel on the
 line (the Go side refuses the line unless they equal `GetConstants()`); histories are separated by `|`, each starts from a fresh hasher.
-op = `W:<hex>[:<spare>]` (spare = poisoned capacity beyond len, ignored by the model) | `S:<hex>` | `R` | `T` (State)
+op = `W:<hex>[:<spare>]` (spare = poisoned capacity beyond len, ignored by the model) | `S:<hex>[:d<dirt>]` (dirt = garbage in
+   the spare capacity of the destination, ignored by the model) | `R` | `T` (State)
    | `U:<hex>` (SetState); `S`/`T`/`U` may end in `:m` = the caller overwrites the slice handed out/in afterwards
    (ignored by the by-value model) | `V` (SetState(State()) on a fresh second hasher, which then replaces the first). -/
 
@@ -154,7 +155,8 @@ def parseOp (tok : String) : Option (List Op) :=
   | ["W", p] => some [.write (parseBytes p)]
   | ["W", p, _] => some [.write (parseBytes p)]
   | ["S", b] => some [.sum (parseBytes b)]
-  | ["S", b, "m"] => some [.sum (parseBytes b)]
+  | ["S", b, x] => if x == "m" || x.startsWith "d" then some [.sum (parseBytes b)] else none
+  | ["S", b, x, "m"] => if x.startsWith "d" then some [.sum (parseBytes b)] else none
   | ["R"] => some [.reset]
   | ["T"] => some [.state]
   | ["T", "m"] => some [.state]
